@@ -65,6 +65,13 @@ Theorem C05_classes :
      mage_status fixed sc = 1 /\ f_child (mage_run fixed sc) = false /\ f_msg (mage_run fixed sc) = true).
 Proof. exact classes. Qed.
 
+(* a flag error anywhere on mage's command line - whatever valid options (-w, -d, -v, -f, ...), commands and words
+   stand before or after it: status 2, a message on stderr, nothing is built or run *)
+Theorem C05_flag_error_anywhere : forall fixed sc, fa_parse (sc_args sc) = FlagsBad ->
+  mage_status fixed sc = 2 /\ f_child (mage_run fixed sc) = false /\ f_msg (mage_run fixed sc) = true.
+Proof. exact flag_error_anywhere. Qed.
+Print Assumptions C05_flag_error_anywhere.
+
 (* what Parse accepts, as a readable description: usage / misuse / the selected command *)
 Theorem C05_parse : forall a,
   (snd (Parse a) = PErrHelp <-> shows_help a) /\
